@@ -285,9 +285,12 @@ def run_check(mod, tier, seed, replay=None):
             continue
         os.makedirs(rdir, exist_ok=True)
         path = os.path.join(rdir, f"{v['mech'].replace('/', '_')}_{seen_mech[v['mech']]}.json")
+        rcase = dict(case)
+        if isinstance(v.get('replay_case'), dict):
+            rcase.update(v.pop('replay_case'))       # whatever the check needs to re-run exactly this design
         with open(path, 'w') as f:
             json.dump({'property': pid, 'mech': v['mech'], 'detail': v['detail'], 'violation': v,
-                       'case': case, 'tier': tier, 'seed': seed}, f, indent=1)
+                       'case': rcase, 'tier': tier, 'seed': seed}, f, indent=1, default=str)
         print(f"VIOLATION property={pid} replay={path}")
         print(f"  mechanism={v['mech']} detail={v['detail'][:400]}")
     if len(unlisted) > sum(min(5, n) for n in seen_mech.values()):
